@@ -14,6 +14,8 @@ mod c12;
 mod c17;
 mod c15;
 mod c07;
+mod sock;
+mod c08;
 
 use std::io::{BufRead, Write};
 
@@ -61,6 +63,7 @@ fn lookup(id: &str) -> Option<(&'static str, Gen, Exec)> {
         "C17" => Some(("C17", c17::generate, c17::exec)),
         "C15" => Some(("C15", c15::generate, c15::exec)),
         "C07" => Some(("C07", c07::generate, c07::exec)),
+        "C08" => Some(("C08", c08::generate, c08::exec)),
         _ => None,
     }
 }
